@@ -22,3 +22,8 @@ claim('C09', 'symbolic evaluation of reset_units over the base-unit monomial alg
       'Decides structural necessary conditions: for all 29 admissible named working-unit choices reset_units, evaluated exactly over the base-unit algebra, leaves each chosen unit equal to one; '
       'all mechanical LAMMPS style entries have the dimension of their key and the SI magnitude LAMMPS documents; get∘set is the identity for one parsed factor; the reduction half of parse() '
       'computes ordinary precedence on every operator pattern up to 4 operators; tokenizer/parenthesis structure; model keys. Floating-point round trips and random seeds are not decided.', 'DESIGN.md §6 C09')
+
+claim('C01', 'expression extraction of Box/Plane methods over symbolic cells + exact polynomial/rational identities; who-may-write, cache-reset, alias/mutation and array-like discipline rules',
+      'Decides structural necessary conditions on the current source: the parameter-set chain, all getters, reciprocal duality, the two coordinate conversions (inverse pair, any leading shape, no write to the argument) '
+      'and the six-face table of inside()/outside() are proved as exact identities on expressions extracted from the syntax tree; cache invalidation is unconditional and the vectors have two writers. '
+      'Rounding bounds and behaviour within rounding of a face are not decided.', 'DESIGN.md §6 C01')
